@@ -37,6 +37,7 @@ COMMANDABLE = (D.SOD, D.RTSO, D.SO, D.OE, D.QSA)
 
 def plan(tier, seed):
     shards = [{"kind": "decode", "part": i, "parts": 4} for i in range(4)]
+    shards += [{"kind": "decode-pdo", "part": i, "parts": 4} for i in range(4)]
     transports = ["sdo", "pdo", "sdo-disabled-tpdo", "pdo", "pdo-ticked"] if tier == "quick" else ["sdo", "pdo", "sdo-disabled-tpdo"] * 4 + ["pdo-ticked"] * 3
     shards += [{"kind": "transitions", "transport": t, "delays": [0, 1, 2, 3, 4, 6] if tier == "quick" else [0, 1, 2, 3, 4, 5, 6, 8, 12],
                 "extras": 3 if tier == "quick" else 12, "cs": seed * 10 + i} for i, t in enumerate(transports)]
@@ -70,6 +71,36 @@ def run_decode(ctx, desc):
         if got != want:
             ctx.violation(f"decode-mismatch:{want}", f"statusword {sw:#06x} reported as {got!r}, CiA 402 says {want!r}", {"statusword": sw})
     ctx.sample({"workload": "decode", "0x0627": D.decode_statusword(0x0627), "0x0250": D.decode_statusword(0x0250)})
+
+
+def run_decode_pdo(ctx, desc):
+    """The same sweep with the statusword arriving in a TPDO frame (shuffled order: what was received before must not
+    matter), every pattern, also those a conformant drive never sends."""
+    from canopen.profiles.p402 import BaseNode402
+    bus = simbus.SimBus(mode="inline")
+    net, st = simbus.make_network(bus, "master")
+    node = BaseNode402(NODE, od402())
+    net.add_node(node)
+    m = node.tpdo[1]
+    m.clear()
+    m.add_variable(0x6041)
+    m.add_variable(0x6061)
+    m.cob_id, m.enabled, m.trans_type = 0x180 + NODE, True, 255
+    node.setup_402_state_machine(read_pdos=False)
+    drive = bus.actor_station("drive")
+    words = [sw for sw in range(0x10000) if sw % desc["parts"] == desc["part"]]
+    random.Random(repr(("c19pdo", desc["part"]))).shuffle(words)
+    for sw in words:
+        drive.send(0x180 + NODE, struct.pack("<Hb", sw, 0))
+        got = node.state
+        want = D.decode_statusword(sw)
+        ctx.count("statuswords_decoded_from_pdo")
+        ctx.case(("decode-pdo", want, sw & 0x6F), nontrivial=True)
+        if node.statusword != sw:
+            ctx.violation("statusword-not-the-received-one", f"TPDO carried {sw:#06x}, node.statusword is {node.statusword:#06x}", {"statusword": sw, "via": "pdo"})
+        elif got != want:
+            ctx.violation(f"decode-mismatch:{want}:pdo", f"statusword {sw:#06x} received by PDO reported as {got!r}, CiA 402 says {want!r}", {"statusword": sw, "via": "pdo"})
+    bus.close()
 
 
 class DriveRig:
@@ -514,6 +545,8 @@ def run(ctx, desc):
     rigs.LogCapture()
     if desc["kind"] == "decode":
         run_decode(ctx, desc)
+    elif desc["kind"] == "decode-pdo":
+        run_decode_pdo(ctx, desc)
     elif desc["kind"] == "transitions":
         run_transitions(ctx, desc)
     elif desc["kind"] == "histories":
